@@ -5,6 +5,7 @@ Every case = abstract node state + ONE entry point.  The state is injected into 
 (`_SyncObj__sendAppendEntries`, `_checkCommandsToApply`, `_applyCommand`, `_SyncObj__onMessageReceived` with
 append_entries / chunk / apply_command / apply_command_response messages, `_SyncObj__onLeaderChanged`,
 `_SyncObj__loadDumpFile`, `_SyncObj__doApplyCommand`, `_onTick` with `__needLoadDumpFile` (journal fold at start-up),
+kill + start of a journaled node on real journal / meta / dump files (op `restartnode`, see `restart_real`),
 `_SyncObj__tryLogCompaction` with a recording serializer (the cluster written into a dump)), the messages handed to the transport, the callbacks,
 the registry calls and the post-state are captured and diffed with `driver nodesend`.
 
@@ -220,6 +221,8 @@ def run_real(env, case):
                 obj._SyncObj__needLoadDumpFile = True
                 obj._SyncObj__raftElectionDeadline = 1e18
                 obj._onTick(0.0)
+            elif op == "restartnode":
+                extra.update(restart_real(env, case))
             elif op == "capture":
                 so.monotonicTime = lambda: 1000.0
                 obj._SyncObj__forceLogCompaction = True
@@ -239,8 +242,122 @@ def run_real(env, case):
         if e[1] not in env.pickled or op != "fappend":
             env.pickled[e[1]] = env.pickle.dumps(e)
     out = env.canon_out(env.out)
-    post = env.extract()
+    post = extra.pop("post", None) or env.extract()
     return {"err": err, "out": out, "state": post, "extra": extra, "plen": dict((i, len(p)) for i, p in env.pickled.items())}
+
+
+def restart_real(env, case):
+    """op `restartnode`: a REAL journaled SyncObj (journal file, meta file, optionally a dump file written by its own
+    `__tryLogCompaction`, `useFork` False) is abandoned without any shutdown call; a second SyncObj is constructed on the
+    same files and runs its first `_onTick` under the simulator's clock.  The state is taken when that tick reaches
+    `__applyLogEntries` for the first time (= right after the start-up block; applying the commands is a separate
+    step of the protocol model, `apply`, and the seeded command bytes are not executable).
+    returns {"post": abstract state of the new object, "x": votedFor/votes, "pre_log": journal at the kill, "dump": entries}"""
+    import shutil
+    import tempfile
+    st = case["state"]
+    sim = env.sim
+    n0 = L.nid(st["self"])
+    N = lambda i: env.Node(L.nid(i))
+    base = getattr(env, "scratch", None)
+    d = tempfile.mkdtemp(prefix="restartnode-", dir=base)
+    jf, df = os.path.join(d, "n.journal"), os.path.join(d, "n.dump")
+    dump_at = case.get("dump")
+    saved = (sim.objs.get(n0), sim.transports.get(n0), sim.per_node_conf.get(n0), env.obj, sim.generation[n0])
+    held = []
+    try:
+        pc = {"journalFile": jf, "useFork": False, "dynamicMembershipChange": False}
+        if dump_at is not None or case.get("dumpConfigured"):
+            pc["fullDumpFile"] = df
+        sim.per_node_conf[n0] = pc
+        others = [L.nid(m) for m in st["members"]]
+        sim._start(n0, others=others)
+        a = sim.objs[n0]
+        held.append(a)
+        A = lambda name, v: setattr(a, "_SyncObj__" + name, v)
+        j = a._SyncObj__raftLog
+        # ---- the state the node has reached: through the journal's own interface, as the handlers store it
+        j.clear()
+        for e in st["log"]:
+            j.add(*env.entry_real(e))
+        vf = case["extra"]["votedFor"]
+        A("raftCurrentTerm", st["term"])
+        A("votedForNodeId", None if vf is None else L.nid(vf))
+        j.setTermAndVote(st["term"], None if vf is None else L.nid(vf))         # stored at once (D16)
+        A("votesCount", case["extra"]["votes"])
+        A("raftState", st["role"])
+        A("raftLeader", None if st["leader"] is None else N(st["leader"]))
+        A("raftNextIndex", dict((N(k), v) for k, v in st["next"]))
+        A("raftMatchIndex", dict((N(k), v) for k, v in st["match"]))
+        sc = case.get("storedCommit")
+        if sc is not None:
+            A("raftCommitIndex", sc)
+            j.setRaftCommitIndex(sc)
+            j.onOneSecondTimer()                                                # the meta reaches the disk once a second
+        A("raftCommitIndex", st["commit"])
+        j.setRaftCommitIndex(st["commit"])                                      # ... this later value does not
+        dump_entries = None
+        if dump_at is not None:
+            A("raftLastApplied", dump_at)
+            A("forceLogCompaction", True)
+            A("lastSerializedEntry", None)
+            a._SyncObj__tryLogCompaction()                                      # writes the dump file (no fork)
+            if not os.path.isfile(df):
+                raise RuntimeError("dump file was not written")
+            by_idx = dict((e[1], e) for e in st["log"])
+            dump_entries = [by_idx[dump_at - 1], by_idx[dump_at]]
+            if case.get("trim"):
+                a._SyncObj__tryLogCompaction()                                  # SUCCESS seen: the journal head is dropped
+            dmg = case.get("damage")
+            if dmg is not None:
+                # journal and dump file that do not belong together: the journal lost its tail / holds another entry
+                cur = [tuple(e) for e in j[:]]
+                j.clear()
+                for e in cur:
+                    if e[1] < dump_at:
+                        j.add(*e)
+                    elif e[1] == dump_at and dmg == "term":
+                        j.add(e[0], e[1], e[2] + 1)
+        A("raftLastApplied", st["lastApplied"])
+        pre_log = [env.entry_abs(e) for e in j[:]]
+        # ---- kill -9: no destroy, no flush; the object stays referenced so that no destructor runs now
+        sim.objs.pop(n0, None)
+        # ---- start again on the same files
+        sim._start(n0, others=others)
+        b = sim.objs[n0]
+        held.append(b)
+        snap = {}
+        env.obj = b
+
+        def hook():
+            if not snap:
+                snap["st"] = env.extract()
+                snap["x"] = {"votedFor": None if b._SyncObj__votedForNodeId is None else L.nnum(b._SyncObj__votedForNodeId),
+                             "votes": b._SyncObj__votesCount}
+        b._SyncObj__applyLogEntries = hook
+        sim.tick(n0, 0.0)
+        hook()
+        for e in b._SyncObj__raftLog[:]:
+            env.pickled[e[1]] = env.pickle.dumps(e)
+        return {"post": snap["st"], "x": snap["x"], "pre_log": pre_log, "dump": dump_entries,
+                "meta_commit": b._SyncObj__raftLog.getRaftCommitIndex()}
+    finally:
+        env.obj = saved[3]
+        for o in held:
+            try:
+                o._SyncObj__raftLog._destroy()
+            except Exception:
+                pass
+        if saved[0] is not None:
+            sim.objs[n0] = saved[0]
+        if saved[1] is not None:
+            sim.transports[n0] = saved[1]
+        if saved[2] is None:
+            sim.per_node_conf.pop(n0, None)
+        else:
+            sim.per_node_conf[n0] = saved[2]
+        sim.generation[n0] = saved[4]
+        shutil.rmtree(d, ignore_errors=True)
 
 
 def err_class(name):
@@ -337,6 +454,12 @@ def driver_line(env, case, real):
                    "storeFails": bool(sn.get("storeFails"))}}
         return {"op": op, "conf": case["conf"], "state": js, "extra": case["extra"], "from": case["from"],
                 "term": case["term"], "commit": case["commit"], "kind": kj}
+    if op == "restartnode":
+        js["log"] = [ent(e) for e in real["extra"].get("pre_log", st["log"])]
+        de = real["extra"].get("dump")
+        sc = case.get("storedCommit")
+        return {"op": op, "state": js, "extra": case["extra"], "storedCommit": 1 if sc is None else sc,
+                "dump": None if de is None else {"prevE": ent(de[0]), "lastE": ent(de[1])}}
     if op == "journalfold":
         return {"op": op, "state": js, "dyn": case["conf"]["dyn"]}
     if op == "capture":
@@ -388,6 +511,8 @@ def compare(env, case, real, model):
         if rn != model["next"]:
             return "nextIndex: impl %s model %s" % (rn, model["next"])
         return None
+    if op == "restartnode" and merr is None and model.get("extra") != real["extra"].get("x"):
+        return "votedFor/votes after the restart: impl %s model %s" % (real["extra"].get("x"), model.get("extra"))
     if op == "appendmsg":
         if model.get("extra") != real["extra"].get("x"):
             return "votedFor/votes: impl %s model %s" % (real["extra"].get("x"), model.get("extra"))
@@ -410,6 +535,8 @@ def compare(env, case, real, model):
     ms = L.strip_cmd(model["state"])
     rs = real["state"]
     for k in STATE_KEYS:
+        if k == "counter" and op == "restartnode":
+            continue        # __commandsLocalCounter of a new object starts at a value drawn per process start (not node state)
         if ms[k] != rs[k]:
             return "state[%s]: impl %s model %s" % (k, L.jdump(rs[k])[:300], L.jdump(ms[k])[:300])
     mb = model["state"]["buf"]
@@ -1088,6 +1215,64 @@ class Gen(object):
         return {"op": "journalfold", "conf": conf(dyn=r.random() < 0.85), "state": st}
 
     # ---------------------------------------------------------------- snapshot restore / re-apply at commit
+    def restart_case(self, log, role, term, voted, commit, la, stored, dump, trim=False, damage=None, dump_conf=False):
+        leader = {0: 1, 1: None, 2: 0}[role]
+        st = blank_state(role=role, term=term, leader=leader, log=log, commit=commit, lastApplied=la,
+                         next=[[1, log[-1][1] + 1], [2, log[-1][1]]] if role == 2 else [],
+                         match=[[1, log[-1][1]], [2, log[-1][1] - 1]] if role == 2 else [])
+        c = {"op": "restartnode", "conf": conf(), "state": st, "extra": {"votedFor": voted, "votes": {0: 0, 1: 1, 2: 2}[role]},
+             "storedCommit": stored, "dump": dump}
+        if trim:
+            c["trim"] = True
+        if damage:
+            c["damage"] = damage
+        if dump_conf:
+            c["dumpConfigured"] = True
+        return c
+
+    def sys_restart(self):
+        """kill + start of a journaled node: roles x votes x dump positions x stored commit index (>= 150 cases)"""
+        cases = []
+        k = 0
+        for first, n in ((1, 5), (1, 2), (4, 6)):
+            log = self.log(first, [3 + (i % 3) for i in range(n)], terms=[min(i // 2, 3) + (0 if first == 1 else 2) for i in range(n)])
+            last = log[-1][1]
+            top = log[-1][2]
+            dumps = [None] + sorted(set([first + 1, (first + last + 1) // 2, last]) - set([first]))
+            for role in (0, 1, 2):
+                for voted in ((None, 0, 1) if role == 0 else (0,)) if role != 2 else (0,):
+                    for dump in dumps:
+                        la_min = dump if dump is not None else 1
+                        for (commit, stored) in ((last, None), (last, max(1, la_min - 1)), (last, last), (max(la_min, last - 1), la_min)):
+                            k += 1
+                            term = top + (k % 2)
+                            cases.append(self.restart_case(log, role, term, voted, commit, max(la_min, min(commit, la_min + (k % 2))),
+                                                           stored, dump, trim=(dump is not None and k % 3 == 0),
+                                                           dump_conf=(dump is None and k % 2 == 0)))
+            # journal and dump that do not belong together (the branch of __loadDumpFile that replaces the journal)
+            for dmg in ("short", "term"):
+                for dump in dumps[1:]:
+                    cases.append(self.restart_case(log, 0, top, 1, last, dump, dump, dump, damage=dmg))
+        return cases
+
+    def rnd_restart(self):
+        r = self.rng
+        first = r.choice([1, 1, 2, 5])
+        n = r.randint(2, 7)
+        terms = sorted(r.randint(0, 4) for _ in range(n))
+        log = self.log(first, [r.randint(1, 6) for _ in range(n)], terms=terms)
+        last = log[-1][1]
+        dump = None if r.random() < 0.3 else r.randint(first + 1, last)
+        la = r.randint(dump or 1, last) if (dump or 1) <= last else last
+        commit = r.randint(la, last)
+        stored = r.choice([None, 1, commit, r.randint(1, commit)])
+        role = r.choice([0, 0, 1, 2])
+        voted = r.choice([None, 0, 1, 2]) if role == 0 else 0
+        return self.restart_case(log, role, terms[-1] + r.randint(0, 2), voted, commit, la, stored, dump,
+                                 trim=(dump is not None and r.random() < 0.4),
+                                 damage=(r.choice(["short", "term"]) if dump is not None and r.random() < 0.15 else None),
+                                 dump_conf=(dump is None and r.random() < 0.5))
+
     def sys_member_misc(self):
         cases = []
         mk = self.cmd
@@ -1205,13 +1390,32 @@ def classify(case, real, model):
                         tags.append("env:snap-covered-callbacks")
             else:
                 tags.append("env:regular")
+    if op == "restartnode" and "state" in model:
+        pre = real["extra"].get("pre_log") or []
+        post = model["state"]["log"]
+        tags.append("restart:role-%d" % case["state"]["role"])
+        tags.append("restart:voted-" + ("none" if case["extra"]["votedFor"] is None else "set"))
+        if case.get("dump") is None:
+            tags.append("restart:no-dump" + ("-configured" if case.get("dumpConfigured") else ""))
+        elif len(post) == 2 and [e[1] for e in pre[-2:]] != [e[1] for e in post]:
+            tags.append("restart:dump-replaces-journal")
+        elif len(post) < len(pre):
+            tags.append("restart:dump-drops-head")
+        else:
+            tags.append("restart:dump-at-head")
+        if case.get("dump") is not None and case["dump"] > model["state"]["commit"]:
+            tags.append("restart:applied-ahead-of-commit")
+        tags.append("restart:commit-" + ("never-stored" if case.get("storedCommit") is None else
+                                         ("stale" if case["storedCommit"] < case["state"]["commit"] else "current")))
     if op in ("submit", "recv_apply") and model.get("out"):
         tags.append("queue:full")
     return tags
 
 
 FLOORS = ["send:drop-inside-burst", "send:drop-inside-burst-readonly", "probe:unconfirmed", "probe:confirmed-exactly", "probe:confirmed-beyond", "send:pipelined", "op:send", "op:sendall", "op:check", "op:submit", "op:recv_apply", "op:recv_response", "op:leader_changed",
-          "op:fappend", "op:frun", "op:restore", "op:reapply", "op:journalfold", "op:capture", "op:appendmsg", "env:stale-term", "env:term-adopted", "env:term-equal",
+          "op:fappend", "op:frun", "op:restore", "op:reapply", "op:journalfold", "op:capture", "op:appendmsg", "op:restartnode", "restart:role-0", "restart:role-1", "restart:role-2",
+          "restart:voted-none", "restart:voted-set", "restart:no-dump", "restart:dump-drops-head", "restart:dump-at-head",
+          "restart:dump-replaces-journal", "restart:applied-ahead-of-commit", "restart:commit-never-stored", "restart:commit-stale", "env:stale-term", "env:term-adopted", "env:term-equal",
           "env:role-0", "env:role-1", "env:role-2", "env:leader-same", "env:leader-none", "env:leader-changed",
           "env:callbacks-leader-changed", "env:commit-raised", "env:commit-kept", "env:snap-none", "env:snap-notlast",
           "env:snap-broken", "env:snap-store-fails-kept", "env:snap-store-fails-nothing-installed", "env:snap-installed", "env:snap-kept", "env:snap-covered-callbacks", "env:regular", "batch:regular", "batch:chunked", "batch:heartbeat", "batch:snapshot",
@@ -1321,6 +1525,8 @@ def build_cases(env, gen, ctx):
     cases += gen.sys_member_misc()
     cases += gen.sys_start_capture()
     cases += gen.sys_env()
+    cases += gen.sys_restart()
+    cases += [gen.rnd_restart() for _ in range(ctx.scale(40, 400))]
     cases += gen.sys_send(ctx.scale(8, 1))
     for i in range(n_rnd):
         x = i % 10
@@ -1342,6 +1548,7 @@ def build_cases(env, gen, ctx):
 def run(ctx):
     t0 = time.time()
     env = L.Env(ctx.repo, seed=ctx.seed)
+    env.scratch = ctx.tmpdir()           # journal / dump files of op `restartnode`
     gen = Gen(env, ctx.rng("nodesend.handlers"))
     cov = collections.Counter()
     seen = set()
